@@ -401,8 +401,15 @@ func execA(c caseA) (st stats, err error) {
 			}
 		}
 	}
-	// final sweep: every object through every process
-	for k, m := range model {
+	// final sweep: every object through every process, its tag set once
+	for k := range c.Keys {
+		m, ok := model[k]
+		if !ok {
+			continue
+		}
+		if err := checkRead(w.client(0), "tags", path(k), c.Keys[k], m, fmt.Sprintf("final read of the tags of %q", c.Keys[k])); err != nil {
+			return st, err
+		}
 		for pi := range w.procs {
 			if err := checkRead(w.client(pi), "get", path(k), c.Keys[k], m, fmt.Sprintf("final read of %q via process %d", c.Keys[k], pi)); err != nil {
 				return st, err
